@@ -22,7 +22,7 @@ pub fn generate(seed: u64, tier: Tier) -> Case {
     let family = *rng.pick(&[
         "valid", "valid", "valid", "valid", "error", "vftable_name", "vftable_name",
         "vftable_name", "registry_collision", "disk_collision", "graph", "graph",
-        "shadowed_generated_name", "generated_name_cycle",
+        "shadowed_generated_name", "generated_name_cycle", "twin_modules",
     ]);
     let mut params = Params::default();
     let (project, mut world) = match family {
@@ -50,6 +50,16 @@ pub fn generate(seed: u64, tier: Tier) -> Case {
             let mut p = gen_valid(&mut rng, &cfg, ptr);
             match family {
                 "valid" => params.intended_valid = true,
+                "twin_modules" => {
+                    // The same module text twice under different paths: equal short names,
+                    // equal vftable blocks, equal function names, different meaning.
+                    for t in 0..rng.range(1, 2) {
+                        let host = rng.below(p.modules.len());
+                        let k = p.modules.len();
+                        let path = vec![format!("twin{k}_{t}")];
+                        crate::project::add_twin_module(&mut p, host, path);
+                    }
+                }
                 "error" => {
                     inject_error(&mut rng, &mut p);
                     params.expect_err = true;
